@@ -361,7 +361,7 @@ func main() {
 		return
 	}
 	rep = report.New("C16", tier, "model_checking")
-	rep.Rule = "E1: for each of Point, MultiPoint, LineString, MultiLineString, Polygon, *Bounds: every shape with 1..3 parts/rings x 1..3 vertices (rings closed and unclosed, both windings by rotation of the pattern list, every fourth rotation with a repeated consecutive vertex in every part) with coordinates from 19 finite float64 patterns, as single records, ordered pairs and triples of a reduced shape list, and the empty file; attributes int {0,-1,+-999999999,9999999999,42}, string {empty, 1 byte, 50 bytes, UTF-8, inner spaces, leading/trailing space}, float {0,-1.5,1/3,1e10,123456789.1234567891,-1e-10}; multi-line strings also with empty parts after the first; the struct API (tags/names in different letter case between writer and reader; for points also a record type whose last field is the string), the field API, and the field API with geometry-only reads (no field names) on every other record. the struct and field APIs again with the written geometries cut from flat vertex buffers (not written to). Oracle: same number and order of records, every returned geometry and attribute map still intact after the last row, bit-identical coordinates part by part (unclosed rings closed, boxes as 5-vertex rectangles), ints equal, strings equal, floats within 1e-10. Non-trivial = files with >= 2 records or >= 2 parts."
+	rep.Rule = "E1: for each of Point, MultiPoint, LineString, MultiLineString, Polygon, *Bounds: every shape with 1..3 parts/rings x 1..3 vertices (rings closed and unclosed, both windings by rotation of the pattern list, every fourth rotation with a repeated consecutive vertex in every part) with coordinates from 19 finite float64 patterns, as single records, ordered pairs and triples of a reduced shape list, the empty file, files of 100 records and records with parts of up to 300 vertices / 40 parts; attributes int {0,-1,+-999999999,9999999999,42}, string {empty, 1 byte, 50 bytes, UTF-8, inner spaces, leading/trailing space}, float {0,-1.5,1/3,1e10,123456789.1234567891,-1e-10}; multi-line strings also with empty parts after the first; the struct API (tags/names in different letter case between writer and reader; for points also a record type whose last field is the string), the field API, and the field API with geometry-only reads (no field names) on every other record. the struct and field APIs again with the written geometries cut from flat vertex buffers (not written to). Oracle: same number and order of records, every returned geometry and attribute map still intact after the last row, bit-identical coordinates part by part (unclosed rings closed, boxes as 5-vertex rectangles), ints equal, strings equal, floats within 1e-10. Non-trivial = files with >= 2 records or >= 2 parts."
 	tmpRoot = "/dev/shm"
 	if st, err := os.Stat(tmpRoot); err != nil || !st.IsDir() {
 		tmpRoot = os.TempDir()
@@ -487,6 +487,34 @@ func main() {
 			// every attribute value once more with a fixed shape
 			for k := 0; k < 24; k++ {
 				jobs = append(jobs, job{kind, []rec{{build(0, 0), attrs{ints[k%len(ints)], strs[(k/2)%len(strs)], floats[(k/3)%len(floats)]}}, {build(0, 3), attrsFor(k)}}, api})
+			}
+		}
+	}
+	// sizes: files of 100 records, and records with long parts / many parts
+	{
+		line := func(n int) geomgen.Skel { return geomgen.Skel{Kind: geomgen.KLineString, N: n} }
+		ring := func(n int) geomgen.Skel { return geomgen.Skel{Kind: geomgen.KRing, N: n} }
+		var manyLines, manyRings []geomgen.Skel
+		for i := 0; i < 40; i++ {
+			manyLines = append(manyLines, line(2+i%3))
+			manyRings = append(manyRings, ring(3+i%2))
+		}
+		bigShapes := map[string][]geomgen.Skel{
+			"MultiPoint":      {{Kind: geomgen.KMultiPoint, N: 300}},
+			"LineString":      {line(300), line(65)},
+			"MultiLineString": {{Kind: geomgen.KMultiLineString, Kids: manyLines}, {Kind: geomgen.KMultiLineString, Kids: []geomgen.Skel{line(200), line(2), line(100)}}},
+			"Polygon":         {{Kind: geomgen.KPolygon, Kids: manyRings}, {Kind: geomgen.KPolygon, Kids: []geomgen.Skel{ring(150), ring(3)}}},
+		}
+		for kind, sk := range bigShapes {
+			for _, api := range []string{"struct", "fields"} {
+				for si := range sk {
+					jobs = append(jobs, job{kind, []rec{{mk(sk[si], si+1), attrsFor(si)}, {mk(sk[si], si+6), attrsFor(si + 1)}}, api})
+				}
+				var many []rec
+				for i := 0; i < 100; i++ {
+					many = append(many, rec{mk(shapes[kind][i%len(shapes[kind])], i), attrsFor(i)})
+				}
+				jobs = append(jobs, job{kind, many, api})
 			}
 		}
 	}
